@@ -112,6 +112,49 @@ theorem C20_child_address (H : Str → Str) (p c : Str) (hp : p.getLast? ≠ som
   rw [trimSlash_id _ h1, trimSlash_id _ hp, splitOnSlash_append, splitOnSlash_noslash c hc]
   simp [foldSegs, List.foldl_append]
 
+/-- **The client-side derivation agrees.**  For a plain path of at least two '/'-free segments whose
+last two segments are non-empty, the pair `MerkleHelper` derives — parent address and child hash —
+recombines (`AddToMerkle`, which is what `PostFile` computes and returns) to the address of the
+path itself; one trailing '/' makes no difference.  (Outside this domain the helper is *not*
+faithful on the unchanged tree: `a//b` is given the address of `a/b`, because the parent string
+`a/` loses its empty last segment to the trailing-slash rule — see DESIGN.md.) -/
+theorem C20_helper_recombines_to_path_address (H : Str → Str) (init : List Str) (m l : Str)
+    (hi : ∀ s ∈ init, '/' ∉ s) (hm : '/' ∉ m) (hmne : m ≠ []) (hl : '/' ∉ l) (hne : l ≠ []) :
+    let path := joinSlash (init ++ [m] ++ [l])
+    addToMerkle H (merkleHelper H path).1 (merkleHelper H path).2 = merklePath H path ∧
+    merkleHelper H (path ++ ['/']) = merkleHelper H path := by
+  intro path
+  have hseg : ∀ s ∈ init ++ [m], '/' ∉ s := by
+    intro s hs
+    rcases List.mem_append.mp hs with h | h
+    · exact hi s h
+    · simp at h; subst h; exact hm
+  have hall : ∀ s ∈ init ++ [m] ++ [l], '/' ∉ s := by
+    intro s hs
+    rcases List.mem_append.mp hs with h | h
+    · exact hseg s h
+    · simp at h; subst h; exact hl
+  have hlast : path.getLast? ≠ some '/' := by
+    show (joinSlash (init ++ [m] ++ [l])).getLast? ≠ some '/'
+    rw [joinSlash_snoc (init ++ [m]) l (by simp)]
+    have := getLast?_ne_slash (joinSlash (init ++ [m]) ++ ['/']) l hne hl
+    simpa using this
+  have hchunks : splitOnSlash (trimSlash path) = init ++ [m] ++ [l] := by
+    rw [trimSlash_id _ hlast]
+    exact splitOnSlash_joinSlash _ (by simp) hall
+  have hhelper : merkleHelper H path = (foldSegs H (init ++ [m]), H l) := by
+    unfold merkleHelper
+    simp only [hchunks, List.dropLast_concat, List.getLastD_concat]
+    rw [C20_merklePath_eq_fold H init m hi hm hmne]
+  refine ⟨?_, ?_⟩
+  · rw [hhelper]
+    show addToMerkle H (foldSegs H (init ++ [m])) (H l) = merklePath H path
+    have := C20_merklePath_eq_fold H (init ++ [m]) l hseg hl hne
+    rw [this]
+    simp [addToMerkle, foldSegs, List.foldl_append]
+  · unfold merkleHelper
+    rw [trimSlash_snoc, trimSlash_id _ hlast]
+
 /-- **Trailing slash.**  One trailing '/' does not change the address. -/
 theorem C20_trailing_slash_neutral (H : Str → Str) (p : Str) (hp : p.getLast? ≠ some '/') :
     merklePath H (p ++ ['/']) = merklePath H p := by
@@ -185,5 +228,12 @@ theorem C20_distinct_segments_distinct_addresses (H : Str → Str) (hlen : ∀ x
 
 /-- non-vacuity / a worked instance with a toy hash: ["a","b"] folds as AddToMerkle says -/
 example : foldSegs (fun x => 'h' :: x) [['a'], ['b']] = ['h','h','h','a','h','b'] := by decide
+
+/-- the helper outside its domain, for every hash function: the plain path `a//b` (segments
+`a`, ``, `b`) is given the address of `a/b` -/
+example (H : Str → Str) :
+    addToMerkle H (merkleHelper H "a//b".toList).1 (merkleHelper H "a//b".toList).2
+      = merklePath H "a/b".toList := by
+  simp [merkleHelper, merklePath, addToMerkle, trimSlash, splitOnSlash, joinSlash, foldSegs]
 
 end Canine.Filetree
